@@ -369,7 +369,7 @@ macro_rules! prim_site {
 macro_rules! prim_site_nosval {
     ($case:ident, $cx:ident, $x:expr, $t:ty, $as:ty, $kind:expr, $typed:expr) => {{
         let x: $t = $x;
-        let o = Orig { display: format!("{x}"), debug: format!("{x:?}"), a: sj(&x), b: vj(&(x as $as)) };
+        let o = Orig { display: format!("{x}"), debug: format!("{x:?}"), a: sj(&x), b: vj(&(x as $as)), pspec: display_table(&x), dspec: debug_table(&x) };
         let exp = expect_prim(&o, $kind, $typed, $case.mode, false);
         let mut site = Site::new($case, exp, $cx);
         sites!(site, v, x, Some(&x); Default Display DisplayI Debug DebugI Value ValueI Serde SerdeI)
@@ -398,8 +398,16 @@ macro_rules! structured_site {
 pub(crate) fn expect_fmt<T: fmt::Display + fmt::Debug + ?Sized>(x: &T, kind: Kind, mode: Mode) -> Expect {
     let mut e = Expect::new("v", kind);
     match mode {
-        Mode::Default | Mode::Display | Mode::DisplayI => e.display = Some(format!("{x}")),
-        Mode::Debug | Mode::DebugI => e.display = Some(format!("{x:?}")),
+        Mode::Default | Mode::Display | Mode::DisplayI => {
+            let pspec = display_table(x);
+            e.display = Some(pspec[0].clone());
+            e.specs = Some(SpecExpect::display_capture(&pspec));
+        }
+        Mode::Debug | Mode::DebugI => {
+            let dspec = debug_table(x);
+            e.display = Some(dspec[0].clone());
+            e.specs = Some(SpecExpect::debug_capture(&dspec));
+        }
         _ => {}
     }
     e
@@ -838,7 +846,11 @@ pub fn check(case: &Case, cx: &mut Cx) -> Res {
                 },
                 Mode::Serde | Mode::SerdeI => exp.json = Some(JsonExpect { by: Fw::Serde, a: sj(&x), b: vj(&x), nested_seq: false }),
                 Mode::Sval | Mode::SvalI => exp.json = Some(JsonExpect { by: Fw::Sval, a: sj(&x), b: vj(&x), nested_seq: false }),
-                _ => exp.display = Some(format!("{x:?}")),
+                _ => {
+                    let dspec = debug_table(&x);
+                    exp.display = Some(dspec[0].clone());
+                    exp.specs = Some(SpecExpect::debug_capture(&dspec));
+                }
             }
             if mode.inspect() && mode != Mode::ValueI {
                 // `inspect: true` may capture the primitive inside the option (or null) instead
